@@ -922,7 +922,8 @@ impl Value
         // C: Clock + Send + Sync,
     {
         let elapsed = self.created_at.elapsed();
-        if elapsed > self.valid_for {
+        if elapsed >= self.valid_for {
+            // Once the smallest TTL has elapsed, the entry has expired.
             return None;
         }
         let secs = elapsed.as_secs() as u32;
